@@ -151,6 +151,8 @@ def _shallow_keep(facts, cb):
         return False
     if cb.impl.get("trait"):
         return True
+    if cb.arg_count < 1 or cb.locals[1].get("name") != "self":
+        return False          # an associated function without a receiver is a plain helper
     d = cb.types[cb.impl["self_ty"]].get("def")
     return d not in _service_like_adts(facts)
 
